@@ -473,3 +473,29 @@ m("benign-classifier-cast-other-side", "C14", "nomt/src/io/mod.rs",
   "            _ if res == PAGE_SIZE as isize => IoKindResult::Ok,",
   "            _ if res as usize == PAGE_SIZE => IoKindResult::Ok,",
   None)
+
+# ---- C18 termination (T1-T3) ----
+m("c18-loop-counter-not-advanced", "C18", "core/src/proof/multi_proof.rs",
+  "            while !terminal_contains(&proof.inner[next_terminal_index], &key) {\n                next_terminal_index += 1;\n                if proof.inner.len() <= next_terminal_index {",
+  "            while !terminal_contains(&proof.inner[next_terminal_index], &key) {\n                if proof.inner.len() <= next_terminal_index + 1 {",
+  "T1|proof::multi_proof::verify_update|loop#1|counter")
+m("c18-for-over-open-range", "C18", "core/src/proof/multi_proof.rs",
+  "    for i in 0..multi_proof.paths.len() {\n        let path = &multi_proof.paths[i];",
+  "    for i in 0.. {\n        if i > multi_proof.paths.len() {\n            break;\n        }\n        let path = &multi_proof.paths[i % multi_proof.paths.len().max(1)];",
+  "T1|proof::multi_proof::verify|loop#1")
+m("c18-recursion-measure-not-increasing", "C18", "core/src/proof/multi_proof.rs",
+  "    let (left_node, left_siblings_used) = verify_range::<H>(\n        uncommon_start_len,",
+  "    let (left_node, left_siblings_used) = verify_range::<H>(\n        common_len,",
+  "T2|proof::multi_proof::verify_range|measure-increases")
+m("c18-recursion-bound-removed", "C18", "core/src/proof/multi_proof.rs",
+  "    if start_depth > start_bits.len() || start_depth > end_bits.len() {\n        return Err(MultiProofVerificationError::MalformedProof);\n    }",
+  "    let start_depth = start_depth.min(start_bits.len()).min(end_bits.len());",
+  "T2|proof::multi_proof::verify_range|measure-bounded")
+m("c18-pop-loop-regrows", "C18", "core/src/proof/multi_proof.rs",
+  "        while self.stack.last().map_or(false, |(d, _)| *d >= depth) {\n            let _ = self.stack.pop();\n        }",
+  "        while self.stack.last().map_or(false, |(d, _)| *d >= depth) {\n            if let Some((d, n)) = self.stack.pop() {\n                if d > depth + 256 {\n                    self.stack.push((d - 1, n));\n                }\n            }\n        }",
+  "T1|proof::multi_proof::CommonSiblings::pop_to|loop#2|pop")
+m("benign-for-range-to-enumerate", "C18", "core/src/proof/multi_proof.rs",
+  "    for i in 0..multi_proof.paths.len() {\n        let path = &multi_proof.paths[i];",
+  "    for (i, _) in multi_proof.paths.iter().enumerate() {\n        let path = &multi_proof.paths[i];",
+  None)
